@@ -3,6 +3,7 @@
   Gate: Model/Sig.lean (`signature_returns_bool`, over the token rendering of every
   function-pointer type).  Stub: Model/X86.lean + Model/Machine.lean.
 -/
+import InjModel.Generated.Layout
 import InjModel.Lemmas.Sig
 import InjModel.Lemmas.Machine
 namespace Inj.Props
@@ -80,6 +81,10 @@ example : boolGate (renderFn (FnTy.mk false 0 (TyList.cons (Ty.prim 1) TyList.ni
   | false => rfl
   | true => have := (C10_gate _).mp h; simp [FnTy.ret] at this
 
+/-- the model's state is complete for the back ends: `injector_core` declares no process-wide or
+    thread-local mutable state (regenerated from the source on every run) -/
+theorem C10_state_modelled : Generated.Layout.coreStatics = [] := by decide
+
 end Inj.Props
 
 #print axioms Inj.Props.C10_source
@@ -88,3 +93,4 @@ end Inj.Props
 #print axioms Inj.Props.C10_endsWith_false
 #print axioms Inj.Props.C10_stub
 #print axioms Inj.Props.C10_stub_bytes
+#print axioms Inj.Props.C10_state_modelled
